@@ -542,6 +542,7 @@ def verify_fragment(world, contract, report=None, only_cfg=None, scope=None):
                 env = contract.make_env(cfg, A)
                 before = NS(**{k: freeze(v) for k, v in env.items()})
                 fr = Frame(interp, dict(env), pyfn, contract.qualname)
+                fr.is_fragment = True
                 fr.loop_ids = ids
                 if world.is_numba(pyfn, fd):
                     ctx.safety = True
@@ -641,6 +642,10 @@ def replay_fragment_generic(world, contract, cfg, concrete_env):
     import copy as _copy
     before = NS(**{k: wrap(_copy.deepcopy(v), k) for k, v in concrete_env.items()})
     outcome, loc = exec_fragment(world, contract, _copy.deepcopy(concrete_env))
+    if outcome.startswith('raise:NameError') or outcome.startswith('raise:UnboundLocalError'):
+        # the real statements read a name that the contract's pre-state does not provide: the code around the
+        # fragment changed, the contract does not apply - no verdict from this replay
+        return []
     if outcome.startswith('raise'):
         after = NS(**{k: wrap(v, k) for k, v in concrete_env.items()})
     else:
